@@ -590,6 +590,7 @@ fn thread_main(
                 outcome: None,
             });
             w.cur_call[tid] = Some(id);
+            w.cur_change[tid] = matches!(call, Call::Change { .. });
             if let Some(c) = w.crash.as_mut() {
                 c.ledger.invoke(id, &call);
             }
@@ -904,6 +905,9 @@ impl ConcRunner<'_> {
         let mut prio: Vec<u32> = (0..n as u32).map(|i| 1000 + i).collect();
         world.rng.shuffle(&mut prio);
         world.prio = if case.prio.len() == n { case.prio.clone() } else { prio };
+        if self.props.has(15) && !cfg!(miri) {
+            world.alloc_ptr = &alloc as *const LLFree<'static> as usize;
+        }
         world.casfail_den = case.casfail_den;
         world.casfail_replay = case.casfail_at.clone();
         world.solo_points = case.solo.clone();
@@ -1014,6 +1018,13 @@ impl ConcRunner<'_> {
             }
             Some(AbortReason::Foreign) => res.stats.aborted += 1,
             None => {}
+        }
+        if let Some((tid, tree, step)) = w.change_on_reserved {
+            j.report(Violation::new(
+                "C15",
+                "change-applied-to-reserved-tree",
+                format!("thread {tid}: the compare-exchange of a tree change on tree {tree} at step {step} succeeded although the entry was reserved at that moment"),
+            ));
         }
         let clean = w.aborted.is_none();
         let crash = w.crash.take().unwrap();
